@@ -18,6 +18,7 @@ import (
 	"time"
 
 	"github.com/dgraph-io/badger/v4/pb"
+	"github.com/dgraph-io/badger/v4/vhook"
 	"github.com/dgraph-io/badger/v4/y"
 	"google.golang.org/protobuf/proto"
 )
@@ -264,6 +265,7 @@ func WriteKeyRegistry(reg *KeyRegistry, opt KeyRegistryOptions) error {
 	if err != nil {
 		return y.Wrapf(err, "Error while opening tmp file in WriteKeyRegistry")
 	}
+	vhook.IO("fcreate", tmpPath, 0, 0)
 	// Write buf to the disk.
 	if _, err = fp.Write(buf.Bytes()); err != nil {
 		// close the fd before returning error. We're not using defer
@@ -272,6 +274,7 @@ func WriteKeyRegistry(reg *KeyRegistry, opt KeyRegistryOptions) error {
 		fp.Close()
 		return y.Wrapf(err, "Error while writing buf in WriteKeyRegistry")
 	}
+	vhook.IO("fwrite-dsync", tmpPath, 0, int64(buf.Len()))
 	// In Windows the files should be closed before doing a Rename.
 	if err = fp.Close(); err != nil {
 		return y.Wrapf(err, "Error while closing tmp file in WriteKeyRegistry")
@@ -280,6 +283,7 @@ func WriteKeyRegistry(reg *KeyRegistry, opt KeyRegistryOptions) error {
 	if err = os.Rename(tmpPath, filepath.Join(opt.Dir, KeyRegistryFileName)); err != nil {
 		return y.Wrapf(err, "Error while renaming file in WriteKeyRegistry")
 	}
+	vhook.IO("rename", tmpPath+"\x00"+filepath.Join(opt.Dir, KeyRegistryFileName), 0, 0)
 	// Sync Dir.
 	return syncDir(opt.Dir)
 }
